@@ -90,7 +90,10 @@ class World:
 
     def runner(self):
         ext = {"math.sqrt": math.sqrt, "math.isqrt": math.isqrt, "np.sqrt": math.sqrt, "fractions.Fraction": Fr,
-               "math.hypot": math.hypot, "np.hypot": math.hypot}
+               "math.hypot": math.hypot, "np.hypot": math.hypot, "np.cos": math.cos, "np.sin": math.sin,
+               "math.cos": math.cos, "math.sin": math.sin, "math.radians": math.radians, "np.radians": math.radians,
+               "np.deg2rad": math.radians, "math.floor": math.floor, "np.floor": math.floor, "np.round": round,
+               "np.isclose": math.isclose}
         return Runner(self.ctx, set(), self.hook, ext=ext)
 
     def call(self, name, recv, *args):
